@@ -1,4 +1,5 @@
 """C17 - importing a CA certificate recovers the fields it claims to recover."""
+import re as _re
 import formula as F
 import schema as S
 import common
@@ -152,7 +153,7 @@ def tables(cfg, crate, rep):
     conv = [a for c, a, n, cond, f in Is.calls if c.endswith("SanType::try_from_general") and a]
     arg = core(conv[0][0]).r() if len(conv) == 1 else ""
     ok = any(c.endswith("SanType::try_from_general") for c in cs) and any(c.endswith("subject_alternative_name") for c in cs) \
-        and arg.endswith("[]") and ".general_names" in arg and "subject_alternative_name(x509)" in arg
+        and arg.endswith("[]") and ".general_names" in arg and _re.search(r"subject_alternative_name\((x509|tbs\w*)(\.tbs_certificate)?\)", arg)
     rep.ob("C17.tables", "%s|%s" % (cfg, fn), ok, "every entry of the certificate's subjectAltName general_names is converted by the shared GeneralName converter and the results are what is returned",
            found={"converter_arg": arg[-80:], "calls_in_result": sorted(c.split("::")[-1] for c in cs)})
     c07.san_back(cfg, crate, rep)
@@ -179,7 +180,6 @@ def tables(cfg, crate, rep):
     # general subtrees: what is appended for one parsed subtree, specialised per GeneralName variant / octet length
     # (from the interpreter's log of pushes onto the result: arms in the loop, or a per-element helper returning Option)
     from interp import specialise
-    import re as _re
     fn = P + "convert_x509_general_subtrees"
     rep.fn(fn)
     Ig = Interp(crate)
@@ -278,8 +278,8 @@ def tables(cfg, crate, rep):
         inner_ = core(x0_.fields.get("0")) if isinstance(x0_, StructV) and x0_.variant == "Ok" and "0" in x0_.fields else None
         if inner_ is None:
             continue
-        ext_present = any(a[0] == "some" and "name_constraints(x509)" in a[1] and F.evalf(c_, {b: (b == a) for b in F.atoms(c_)}) for a in F.atoms(c_)) or \
-            any(a[0] == "some" and "name_constraints(x509)" in a[1] and not F.counterexamples(c_, ("atom", a), "implies") for a in F.atoms(c_) if len(F.atoms(c_)) <= 12)
+        ext_present = any(a[0] == "some" and _re.search(r"name_constraints\((x509|tbs\w*)(\.tbs_certificate)?\)", a[1]) and F.evalf(c_, {b: (b == a) for b in F.atoms(c_)}) for a in F.atoms(c_)) or \
+            any(a[0] == "some" and _re.search(r"name_constraints\((x509|tbs\w*)(\.tbs_certificate)?\)", a[1]) and not F.counterexamples(c_, ("atom", a), "implies") for a in F.atoms(c_) if len(F.atoms(c_)) <= 12)
         if isinstance(inner_, StructV) and inner_.variant == "Some":
             nc_ = core(inner_.fields.get("0"))
             if isinstance(nc_, StructV) and (nc_.adt or "").endswith("NameConstraints"):
@@ -307,18 +307,22 @@ def tables(cfg, crate, rep):
     bc = somes[0] if somes else None
     ok = False
     found = None
-    if bc and "basic_constraints(x509)" in bc:
+    if bc and _re.search(r"basic_constraints\((x509|tbs\w*)(\.tbs_certificate)?\)", bc):
         plc = bc + "?.path_len_constraint"
 
+        _BC = r"basic_constraints\((x509|tbs\w*)(\.tbs_certificate)?\)"
+
         def classify(a):
-            if a[0] == "some" and a[1] == bc:
+            # by what is tested of the parsed extension, whatever the access path (`ext.value`, a mapped Option, a
+            # converter that receives `&ext.value`)
+            if a[0] == "some" and (a[1] == bc or (_re.search(_BC, a[1]) and not a[1].endswith((".ca", ".path_len_constraint", ".path_len_constraint?")))):
                 return ("present", True)
-            if a[0] == "true" and a[1] == bc + "?.ca":
+            if a[0] == "true" and _re.search(_BC, a[1]) and a[1].endswith(".ca"):
                 return ("ca", True)
-            if a[0] == "some" and a[1] == plc:
+            if a[0] == "some" and _re.search(_BC, a[1]) and a[1].endswith(".path_len_constraint"):
                 return ("plc", True)
             ub = common.upper_bound(Ic, a)
-            if ub and ub[0] == plc + "?" and ub[1] == 255:
+            if ub and _re.search(_BC, ub[0]) and ub[0].endswith(".path_len_constraint?") and ub[1] == 255:
                 return ("fits", True)
             return None
         names = ["present", "ca", "plc", "fits"]
@@ -340,7 +344,7 @@ def tables(cfg, crate, rep):
                 if ynm == "Constrained":
                     z = y.fields.get("0")
                     zr = core(z).r()
-                    exact = zr == plc + "?" and not [r_ for r_ in roots(z) if r_.startswith("op:")]
+                    exact = (zr == plc + "?" or (_re.search(_BC, zr) and zr.endswith(".path_len_constraint?"))) and not [r_ for r_ in roots(z) if r_.startswith("op:")]
                     return "Ca(Constrained(%s))" % ("n" if exact else zr[-40:])
                 return "Ca(%s)" % ynm
             return nm
